@@ -466,6 +466,20 @@ class FormatMachine(MachineBase):
             for kind in pre:
                 if kind == "peek":
                     continue
+                if kind == "used-other-disc":
+                    # the SAME object read another disc's file before (a tool walking over the discs of a set): a .discinfo
+                    # is four lines and every one of them is read, so nothing of the earlier file may remain
+                    if self.FORMAT == "discinfo":
+                        self.fs.put("/sim/d/.other-disc", "1000000000.5\nOther Product 1\ns390x\n2,3\n")
+                        try:
+                            new.load("/sim/d/.other-disc")
+                            CTX.probe("load.object_used_for_another_disc_before")
+                        except Exception as e:
+                            if isinstance(e, HarnessError):
+                                raise
+                            new = self.new_obj()
+                        self.fs.remove("/sim/d/.other-disc")
+                    continue
                 # a load that is REFUSED first (the object stays the caller's; it is then used for the real load)
                 junk = "/sim/d/.junk-" + self.FILE
                 self.fs.put(junk, self.junk_document(kind))
@@ -502,9 +516,33 @@ class FormatMachine(MachineBase):
                 raise Violation(PP, "%s.deserialize_only_reads_its_input" % PP, "deserialize-changed-the-parsed-document/%s" % self.FORMAT, {})
             new = self.new_obj()
             new.deserialize(doc)
+            self._serialize_into_parsed(doc)
         else:
             new.load(self.arg(path))
         return new
+
+    def _serialize_into_parsed(self, doc):
+        """...and writes the result back into that very mapping (serialize(parser) is how dump() itself fills a document;
+        a tool that edits a parsed document in place does the same): what ends up in the mapping is what serialising
+        into an empty one gives - nothing of what was read lingers in it (an 'src' cell, a legacy section name)"""
+        focus = self.cfg.get("focus")
+        P = focus if focus in ("C10", "C05", self.ROUNDTRIP_PROP) else None
+        if P is None:
+            return
+        third = self.new_obj()
+        try:
+            third.deserialize(doc)
+            fresh = {}
+            third.serialize(fresh)
+            third.serialize(doc)
+        except Exception as e:
+            if isinstance(e, HarnessError):
+                raise
+            return
+        CTX.probe("load.serialized_back_into_the_parsed_document")
+        if cjson(doc) != cjson(fresh):
+            raise Violation(P, "%s.serialize_into_read_document" % P, "leftovers-of-the-read-document-in-the-written-one/%s" % self.FORMAT,
+                            {"diff": first_diff(fresh, doc)})
 
     def junk_document(self, kind):
         if kind == "wrong-type" and self.KIND == "json":
